@@ -265,12 +265,16 @@ MANIFEST = {
 
 HARNESSES = [
     H(name="c03_prior_activity", fn=prior_activity, shape="N", budget=lambda tier: 1800.0 if tier == "quick" else 3000.0,
-      cubes=lambda tier: [dict(_NOFLAGS, mode=m, kind0=a, kind1=0, t2=2, B_mode=0, B_kind0=b, B_kind1=0, B_t1=1, B_t2=2, B_daemon1=0, B_daemon2=0, B_cancel1=0,
+      cubes=lambda tier: ([dict(_NOFLAGS, mode=m, kind0=a, kind1=0, t2=2, B_mode=0, B_kind0=b, B_kind1=0, B_t1=1, B_t2=2, B_daemon1=0, B_daemon2=0, B_cancel1=0,
                                B_cdm0a=0, **({"B_t0": 0, "B_d0b": 0} if tier == "quick" else {}))
-                          for m in (0, 1) for a in (1, 3) for b in (1, 2)],
+                          for m in (0, 1) for a in (1, 3) for b in (1, 2)]
+                         if tier != "quick" else
+                         [dict(_NOFLAGS, mode=m, kind0=a, kind1=0, t2=2, B_mode=0, B_kind0=b, B_kind1=0, B_t1=1, B_t2=2, B_daemon1=0, B_daemon2=0, B_cancel1=0,
+                               B_cdm0a=0, B_t0=0, B_d0b=0, another_simulation_constructed_before_run=o, loose_events_created=le)
+                          for m in (0, 1) for a in (1, 3) for b in (1, 2) for o in (0, 1) for le in (0, 2)]),
       require=lambda tier: ["three_deliveries"], classify=classify,
       functions=["reset_event_counter", "_next_sort_index", "_active_sim_context", "EventHeap.seed_event_counter", "Simulation.__init__/run"],
-      bounds=lambda tier: {"model A": "C01 scenario program", "activity in between": "a second symbolic program run to completion + 0..3 loose events created"},
+      bounds=lambda tier: {"model A": "C01 scenario program", "activity in between": "a second symbolic program run to completion + loose events created (quick: 0 or 2, thorough: symbolic 0..3), optionally another Simulation constructed before the run"},
       outside=["models with Sources / numpy RNG state", "other processes"]),
     H(name="c03_sketch_isolation", fn=sketch_isolation, shape="N", budget=lambda tier: 600.0,
       cubes=lambda tier: [{"sketch": k} for k in range(len(_SKETCH_MODS))],
